@@ -18,8 +18,8 @@ CLAIMS = {
         'queue are compared with the definition by TLC on every step; the open model (any interleaving of deliveries, (lt,id) in '
         '{1,2}x{1,2}) is model-checked against the same monitor.',
         'Trusts TLC, the regex renderer (AST to Go syntax, fully parenthesised) and the wire-format mirror in the harness, and the '
-        'overlay accessor exposing the head of the event pipeline. Zero-length filters (the node panics: property C09) are executed '
-        'but not judged. Patterns beyond the AST domain (classes, counted repetition, flags) are not covered.',
+        'overlay accessor exposing the head of the event pipeline. A zero-length filter is judged like any other invalid filter '
+        '(it must exclude the node). Patterns beyond the AST domain (classes, counted repetition, flags) are not covered.',
         _TECH, '5 C08'),
     'C33': (
         'model_checking',
@@ -270,16 +270,15 @@ def run_c08(ctx, replay):
                 if '"panic":true' in line:
                     panics += 1
     cov = {
-        "model_constants": consts, "evaluations": dels - empties,
-        "deliveries_with_zero_length_filter_not_judged": empties, "observed_panics_in_NotifyMsg": panics,
+        "model_constants": consts, "evaluations": dels,
+        "deliveries_with_zero_length_filter": empties, "observed_panics_in_NotifyMsg": panics,
         "rule": "every script TLC enumerated (boot with the tag map, then deliveries) executed on a real quiet node through NotifyMsg; "
-                "evaluations = deliveries judged by the C08 monitor (those carrying a zero-length filter are executed but not judged, "
-                "C09); distinct = scripts",
+                "evaluations = deliveries judged by the C08 monitor (a zero-length filter counts as an invalid, excluding filter); "
+                "distinct = scripts",
         "samples": [groups[0][1][0][:3]] if groups and groups[0][1] else [],
     }
     assume = ["the application channel is observed up to a marker pushed through the head of the event pipeline (FIFO)",
-              "regexp.MatchString is compared with PartialMatch only on the AST domain of spec/Regex.tla",
-              "queries carrying a zero-length filter are excluded from the verdict (the node panics: C09)"]
+              "regexp.MatchString is compared with PartialMatch only on the AST domain of spec/Regex.tla"]
     finish(fam, binary, mcs, groups, reps, cov, assume)
 
 
